@@ -247,7 +247,7 @@ fn states(tier: &str) -> Vec<State> {
         let mut s = build(&chain, false, false);
         s.files[0].prefixes.push(("x".into(), ext.into()));
         s.files[0].imports.push(Import { ns: ext.into(), loc: None });
-        s.files[0].comps.insert(0, complex("Envelope", vec![Particle::Ref(ElemRef { target: QName::new(ext, "T0"), min: 0, max: Max::N(1) }), Particle::Ref(ElemRef { target: QName::new(ext, "T1"), min: 0, max: Max::N(1) })]));
+        s.files[0].comps.insert(0, complex("Envelope", vec![Particle::Ref(ElemRef { target: QName::new(ext, "T0"), min: 0, max: Max::N(1), xmlns: vec![] }), Particle::Ref(ElemRef { target: QName::new(ext, "T1"), min: 0, max: Max::N(1), xmlns: vec![] })]));
         out.push(State { label: format!("{} after-a-component-with-unresolvable-refs-to-the-same-local-names", label(&chain, false, false)), depth: d as u32, set: s });
     }
     // longer chains
